@@ -482,13 +482,22 @@ class Case(object):
         self.name = r["el"]
         self.root = os.path.realpath(tempfile.mkdtemp(prefix="rv_c10_"))
         self.work = os.path.join(self.root, "w")
-        self.stubs = _out_stubs.Stubs(os.path.join(self.root, "bin"),
-                                      os.path.join(self.root, "stub.log"))
+        os.mkdir(self.work)
+        self.stubs = None
+        if self.name.startswith(("LaTeXToPDF", "PDFToPNG")):
+            self.stubs = _out_stubs.Stubs(os.path.join(self.root, "bin"),
+                                          os.path.join(self.root, "stub.log"))
         self.env = {"work": self.work, "out": self.work, "stubs": self.stubs}
 
     def reset_dir(self):
-        shutil.rmtree(self.work, ignore_errors=True)
-        os.mkdir(self.work)
+        """Bring the work directory back to its initial state (input files only)."""
+        if not CONFIGS[self.name][2] and not os.listdir(self.work):
+            return
+        for d, dirs, files in os.walk(self.work, topdown=False):
+            for fn in files:
+                os.remove(os.path.join(d, fn))
+            for x in dirs:
+                os.rmdir(os.path.join(d, x))
         for fn in CONFIGS[self.name][2]:
             with open(os.path.join(self.work, fn), "w") as f:
                 f.write(INPUT_FILES[fn])
@@ -522,11 +531,13 @@ class Case(object):
                 per.setdefault(cur, [])
             elif cur is not None:
                 per[cur].append(ev)
-        self.stubs.new_invocations()
+        if self.stubs is not None:
+            self.obs.count("stub_invocations", len(self.stubs.new_invocations()))
         return outs, per, tree(self.work)
 
     def close(self):
-        self.stubs.restore_path()
+        if self.stubs is not None:
+            self.stubs.restore_path()
         shutil.rmtree(self.root, ignore_errors=True)
 
 
@@ -534,7 +545,8 @@ def run_case(r, obs):
     from rv.props._out_stubs import is_write_event
     c = Case(r, obs)
     try:
-        c.stubs.install_path()
+        if c.stubs is not None:
+            c.stubs.install_path()
         name = c.name
         anames, bnames = r["A"], r["B"]
         multiset = name.startswith("LaTeXToPDF")
